@@ -1,5 +1,6 @@
 import GradysProofs.Lemmas.ELHist
 import GradysProofs.Lemmas.SimStep
+import GradysProofs.Lemmas.HeapRefine
 /-
   C02 — every scheduled event runs exactly once; nothing is lost, duplicated or invented.
   Part A: every history of the public EventLoop API.  Part B: every simulation run.
@@ -90,6 +91,22 @@ theorem C02_pop_perm (l : EL K) :
       injection h with h
       obtain ⟨rfl, rfl⟩ := Prod.mk.inj h
       exact hq
+
+/-- conservation on the real heap: run any history on the event loop whose queue is the port of
+    `heapq.py` (`HEL`, `GradysModel/Heap.lean`). Its outputs are those of the list loop (so the
+    popped events are the same), and popped ++ heap contents ++ dropped-by-clear is a permutation of
+    the accepted requests: the heap neither loses, duplicates nor invents an event. -/
+theorem C02_heapq_conserves (ops : List (ELOp K)) :
+    let g := (ELG.init : ELG K).run ops
+    let hl := ((HEL.empty : HEL K).run ops).1
+    ((HEL.empty : HEL K).run ops).2 = ((EL.empty : EL K).run ops).2 ∧
+    (g.popped ++ hl.heap.toList ++ g.dropped).Perm g.accepted := by
+  intro g hl
+  obtain ⟨hout, hrel⟩ := (HRel.empty (K := K)).run ops
+  refine ⟨hout, ?_⟩
+  have hl' : ((EL.empty : EL K).run ops).1 = g.l := (ELG.run_l ELG.init ops).symm
+  have hp : hl.heap.toList.Perm g.l.queue := hl' ▸ hrel.rel.2.1
+  exact (List.Perm.append_right _ (List.Perm.append_left _ hp)).trans (C02_history_perm ops)
 
 /-! ### B. the simulator, for every configuration and every protocol program -/
 open Sim
